@@ -205,8 +205,6 @@ def configs(tier, seed):
     if tier == 'thorough':
         variants += [(8, 8, 8, 8), (1, 2, 1, 3), (5, 1, 7, 1), (rnd.randint(1, 9), rnd.randint(1, 9), rnd.randint(1, 9), rnd.randint(1, 9))]
     for f in small_formats(4 if tier == 'quick' else 6):
-        if sum(f) == 1 and not INCLUDE_1BIT_OPERANDS_WITH_WIDE_FLAGS:
-            continue            # see the assumption recorded in run_check
         for fl in variants:
             out.append((f, f, f, 'exhaustive', fl))
     for f in WIDE[:3] + [(1, 3, 4)]:
@@ -234,11 +232,6 @@ class Stats(dict):
 
 NT_SUBSAMPLE = 16    # thorough tier: only cases with content hash = 0 mod 16 are registered as distinct non-trivial (lower bound)
 PER_MECHANISM = 3
-# The sign-only format (1,0,0) with an eq wire wider than one bit fires on the unchanged tree (eq reads 2**w-2 / 2**w-1): the
-# comparator's 1-bit difference goes through EqualConstant's 1-bit special case, Not(a -> r), and Not fills the upper bits of a
-# wider output.  Reported to the lead (proposal C14-equalconstant_1bit_wide_output.diff); until it is decided this one
-# combination is left out of the output-width class.  C14_INCLUDE_1BIT_WIDE_FLAGS=1 puts it back.
-INCLUDE_1BIT_OPERANDS_WITH_WIDE_FLAGS = os.environ.get('C14_INCLUDE_1BIT_WIDE_FLAGS') == '1'
 M60 = (1 << 60) - 1
 
 
@@ -263,9 +256,6 @@ def run_check(run, tier, seed, shard):
                'result formats with more fraction bits than fa+fb (low < 0) are refused by the constructor and counted as refused')
     run.assume('output wires: Add/Sub/Mult assert r.getWidth() == sum(rf), so only the flag wires (gt, eq, lt, sign) can be wider than '
                'their natural width; a wider flag wire must read the zero-extended 0/1')
-    if not INCLUDE_1BIT_OPERANDS_WITH_WIDE_FLAGS:
-        run.assume('excluded from the output-width class: the sign-only format (1,0,0) with flag wires wider than 1 bit -- on the pinned tree the eq '
-                   'wire then reads 2**w-2 / 2**w-1 (EqualConstant\'s 1-bit special case drives the wide wire through Not); reported, not judged')
     cfgs = configs(tier, seed)
     i, nsh = shard if shard else (0, 1)
     stats = Stats()
